@@ -13,6 +13,7 @@ pub mod c14;
 pub mod c15;
 pub mod c16;
 pub mod c17;
+pub mod c20;
 pub mod lincheck;
 pub mod macro_table;
 pub mod solvers;
@@ -35,6 +36,7 @@ pub fn dispatch(id: &str, args: &RunArgs) -> i32 {
         "C15" => run(&c15::C15, args),
         "C16" => run(&c16::C16, args),
         "C17" => run(&c17::C17, args),
+        "C20" => run(&c20::C20, args),
         "C03" => run(&c03::C03, args),
         "C04" => run(&c04::C04, args),
         "C05" => run(&c05::C05, args),
